@@ -12,7 +12,7 @@ from .. import AnalysisError, AnchorMissing
 from ..cfg import cfg_of
 from ..model import own_nodes
 from ..values import pattern, match, match_any, find, contains, show, subterms
-from .base import obligation, src, callee_name
+from .base import obligation, src, callee_name, if_branches, split_if
 from .C04 import pattern_term, returns, enclosing_loop, _inside
 from .C02 import ambient_sources
 
@@ -175,7 +175,7 @@ def c15_d(ctx):
         raise AnchorMissing('cache read')
     ok = False
     for (t, pol, ta) in ctx.guards(f, reads[0]):
-        r = ex.raw(ta)
+        r = t
         if pol and r[0] == 'bool' and r[1] == 'and':
             a = [x for x in r[2] if x == ('name', 'cache') or x == ('param', 'cache') or
                  match(x, pattern('cache is not None')) is not None or
@@ -191,7 +191,9 @@ def c15_d(ctx):
               node=reads[0])
     fresh = [n for n in own_nodes(f.node) if isinstance(n, ast.Assign) and
              match(ex.raw(n.value), pattern('set()')) is not None]
-    ok = bool(fresh) and any(pol is False for (t, pol, _) in ctx.guards(f, fresh[0]))
+    ok = bool(fresh) and bool(ctx.guard_groups(f, fresh[0])) and not any(
+        pol and t[0] == 'bool' and t[1] == 'and' and contains(t, "len(cache['seen'])")
+        for (t, pol, _) in ctx.guards(f, fresh[0]))
     ctx.check(ok, f, 'fresh start otherwise', 'seen = set(), RandomState(seed)',
               'without a usable cache the search does not start from an empty set', fn=f,
               node=fresh[0] if fresh else f.node)
